@@ -369,7 +369,8 @@ let run_glue (id : string) (h : header) (body : string) =
   let wdata = synthetic_header () ^ h.wb in
   let chunks = match send_message dlen dsub h.cs h.did (src_of h) wdata msg with
     | Some l -> l | None -> failwith "glue case: the model sender panics" in
-  let keep = if h.fail = "conn" then 0
+  let immediate = (h.fail = "resolve" || h.fail = "breaker" || h.fail = "jobs") in
+  let keep = if h.fail = "conn" || immediate then 0
     else if String.length h.fail > 5 && String.sub h.fail 0 5 = "chunk"
     then int_of_string (String.sub h.fail 5 (String.length h.fail - 5))
     else List.length chunks in
@@ -382,8 +383,8 @@ let run_glue (id : string) (h : header) (body : string) =
     | Panic -> failwith "glue case: the model receiver panics") delivered;
   let (tr, tmp, fin, _) = state_parts !st in
   let nn = List.length !st.s_out in
-  Printf.printf "%s g sent=1 status=[%s.%s.%s] compact=1 delivered=%d msgs=%d hs=%d T[%s] D[%s] F[%s]\n" id
-    (sn msg.m_shard) (sn msg.m_to) (if h.fail = "none" then "0" else "1") (List.length delivered) nn nn
+  Printf.printf "%s g sent=%s status=[%s.%s.%s] compact=1 delivered=%d msgs=%d hs=%d T[%s] D[%s] F[%s]\n" id
+    (if immediate then "0" else "1") (sn msg.m_shard) (sn msg.m_to) (if h.fail = "none" then "0" else "1") (List.length delivered) nn nn
     (String.concat " " tr) (String.concat " " tmp) (String.concat " " fin);
   digest_skip := 0
 
